@@ -62,7 +62,7 @@ def _list_slice(slize: Slice) -> List[Slice]:
     Returns a list of Slices in which each element has a concrete Signal for its parent."""
 
     # Resolve "full-width" slices to their parent Signals
-    if width(slize) == width(slize.parent):
+    if slize.step == 1 and width(slize) == width(slize.parent):
         # Return a single-element list, after resolution
         return [_resolve_sliceable(slize.parent)]
 
@@ -75,7 +75,12 @@ def _list_slice(slize: Slice) -> List[Slice]:
 
         if isinstance(slize.parent, Slice):
             parent = slize.parent  # Note this is also a Slice
-            return _list_slice(parent.parent[parent.bot + slize.bot])
+            # Our sole bit is bit number `slize.bot` of `parent`, which in turn steps through *its* parent.
+            if parent.step > 0:
+                idx = parent.bot + slize.bot * parent.step
+            else:
+                idx = parent.top - 1 + slize.bot * parent.step
+            return _list_slice(parent.parent[idx])
 
         if isinstance(slize.parent, Concat):
             idx = 0  # Find the `part` including our index
@@ -90,9 +95,10 @@ def _list_slice(slize: Slice) -> List[Slice]:
 
     # Otherwise recurse in something like a "cons" pattern, splitting between the first bit and the rest.
     step = slize.step
-    if step < 0:  # Negative step, begin from `top`
-        first = _list_slice(slize.parent[slize.top])
-        rest = slize.parent[slize.top + step : slize.bot : step]
+    if step < 0:  # Negative step, begin from the highest index, `top - 1`
+        first = _list_slice(slize.parent[slize.top - 1])
+        stop = slize.bot - 1 if slize.bot > 0 else None
+        rest = slize.parent[slize.top - 1 + step : stop : step]
         rest = _list_slice(rest)
 
     else:  # Positive step, begin from `bot`
